@@ -49,3 +49,6 @@ def run(ctx):
     ctx.guard(match_slot_rule, ctx, "C17.match-slot")
     from ..rules_ast import call_arity_rule
     ctx.guard(call_arity_rule, ctx, "C17.call-arity")
+    # every class must compile the pattern of its own structure(): what the accepted language rests on
+    from ..rules_ast import persistent_state_rule
+    ctx.guard(persistent_state_rule, ctx, "C17.own-pattern")
